@@ -21,6 +21,8 @@ from . import progs
 THEOREMS = ["collect_sound", "collect_complete", "collect_exact", "collect_terminates", "collect_total", "sortedOrder_covers",
             "ids_injective", "ids_positions", "ids_stable", "insts_nodup", "collect_order_independent",
             "subst_compose", "subst_closed", "reach_closed", "unwrap_param", "unwrap_subst_commutes", "unwrap_raw_wrong",
+            "subst_preserves_shape", "subst_preserves_shape_code", "subst_identity_commutes", "subst_keeps_directions_apart",
+            "subst_sendrecv_counterexample", "subst_sendrecv_conflates",
             "collect_complete_full_counterexample", "collect_sound_full_counterexample"]
 
 # ----------------------------------------------------------------------------------------------------------------
@@ -156,6 +158,56 @@ func Desc(p any) string {
 		}
 	}
 	return Reg(p)
+}
+
+type Emb struct{ E int }
+
+// the concrete spellings of composite types over a few atoms are registered first: a composite type built from a type
+// parameter inside generic code must get the index of its concrete spelling when the parameter is one of these atoms
+func init() {
+	for _, p := range []any{
+		(*chan int)(nil), (*<-chan int)(nil), (*chan<- int)(nil), (*[2]int)(nil), (*[3]int)(nil),
+		(*func(int))(nil), (*func(...int))(nil), (*func(int) (int, error))(nil), (*func(int) int)(nil),
+		(*struct{ A int })(nil), (*struct {
+			A int `k:"v"`
+		})(nil), (*struct {
+			A int
+			B int
+		})(nil), (*struct {
+			B int
+			A int
+		})(nil), (*struct {
+			Emb
+			A int
+		})(nil), (*struct {
+			Emb Emb
+			A   int
+		})(nil),
+		(*map[string]int)(nil), (**int)(nil), (*[]<-chan int)(nil), (*map[string]chan<- int)(nil), (*func(<-chan int) [2]int)(nil),
+		(*chan string)(nil), (*<-chan string)(nil), (*chan<- string)(nil), (*[2]string)(nil), (*func(...string))(nil),
+		(*<-chan uint8)(nil), (*chan<- uint8)(nil), (*chan uint8)(nil), (*<-chan MyI8)(nil), (*chan<- *MyS)(nil),
+	} {
+		Reg(p)
+	}
+}
+
+// Dir: type switch against the concrete spellings of channel types
+func Dir(v any) string {
+	switch v.(type) {
+	case <-chan int, <-chan string, <-chan uint8, <-chan bool, <-chan MyI8:
+		return "r"
+	case chan<- int, chan<- string, chan<- uint8, chan<- bool, chan<- MyI8:
+		return "s"
+	case chan int, chan string, chan uint8, chan bool, chan MyI8:
+		return "b"
+	}
+	if _, ok := v.(<-chan float64); ok {
+		return "R"
+	}
+	if _, ok := v.(chan float64); ok {
+		return "B"
+	}
+	return "?"
 }
 
 func Zero(v any) string {
@@ -764,6 +816,25 @@ class Render:
         for i in range(len(classes)):
             for j in range(i + 1, len(classes)):
                 out.append('%s{ _, ok := any((*%s%d)(nil)).(*%s%d); base.Emit("i%d%d:" + base.Btoa(ok)) }' % (ind, prefix, i, prefix, j, i, j))
+        # composite types built FROM the type parameter with every attribute-carrying constructor: their identity in the
+        # instance must be the identity of the concrete spelling (channel direction, array length, variadic / results,
+        # struct tags / field order / embedding, nesting)
+        for i, c in enumerate(classes):
+            T = "%s%d" % (prefix, i)
+            fam = ["chan %s" % T, "<-chan %s" % T, "chan<- %s" % T, "[2]%s" % T, "[3]%s" % T,
+                   "func(%s)" % T, "func(...%s)" % T, "func(%s) (%s, error)" % (T, T), "func(%s) %s" % (T, T),
+                   "struct{ A %s }" % T, 'struct{ A %s `k:"v"` }' % T, "struct{ A %s; B int }" % T, "struct{ B int; A %s }" % T,
+                   "struct{ base.Emb; A %s }" % T, "struct{ Emb base.Emb; A %s }" % T,
+                   "map[string]%s" % T, "*%s" % T, "[]<-chan %s" % T, "map[string]chan<- %s" % T, "func(<-chan %s) [2]%s" % (T, T)]
+            out.append("%s{" % ind)
+            out.append('%s\tsh := ""' % ind)
+            out.append("%s\tfor _, p := range []any{%s} {\n%s\t\tsh += base.Reg(p) + \",\"\n%s\t}" % (
+                ind, ", ".join("(*%s)(nil)" % f for f in fam), ind, ind))
+            out.append('%s\tbase.Emit("sh%d:" + sh + base.Dir(any((<-chan %s)(nil))) + base.Dir(any((chan<- %s)(nil))) + base.Dir(any((chan %s)(nil))))' % (
+                ind, i, T, T, T))
+            out.append('%s\t{ var a any = make(<-chan %s); var b any = make(chan %s); _, ok1 := a.(chan %s); _, ok2 := b.(<-chan %s); m := map[any]int{(<-chan %s)(nil): 1, (chan %s)(nil): 2, (chan<- %s)(nil): 3}; base.Emit("sd%d:" + base.Btoa(ok1) + base.Btoa(ok2) + base.Itoa(len(m))) }' % (
+                ind, T, T, T, T, T, T, T, i))
+            out.append("%s}" % ind)
         # type switches and assertions over the type parameters: the bound variable must be the PLAIN value of the type
         # argument (arithmetic, comparison, method call, re-boxing), whatever the clause form
         for i, c in enumerate(classes):
